@@ -117,6 +117,7 @@ static struct timeval tv_add(struct timeval a, struct timeval b)
 /* ================================ (ii) wake-up ============================================== */
 static int wait_forever; static struct timeval wait_until;   /* what the loop thread sleeps for */
 static int e_was_active, e_was_added;
+static int e_deleted;         /* event_del(E) has returned (and E was not re-added since) */
 
 static void other_thread_call(void)
 {
@@ -140,6 +141,7 @@ static void other_thread_call(void)
 	r = event_del(&E);
 #endif
 	VP_ASSERT(r == 0, "harness: del succeeds");
+	e_deleted = 1;
 	if (vp_be_del_calls + vp_sig_del_calls != del0) needed = 1;
 	if (event_base_get_num_events(base, EVENT_BASE_COUNT_ADDED | EVENT_BASE_COUNT_VIRTUAL | EVENT_BASE_COUNT_ACTIVE) == 0 && (e_was_added || e_was_active)) needed = 1;
 	if (!e_was_added && !e_was_active) forbidden = 1;      /* nothing was pending: nothing changed */
@@ -295,6 +297,9 @@ void cb(evutil_socket_t fd, short res, void *arg)
 	else if (arg == &R) ncb_R++;
 	else if (arg == &E) {
 		ncb_E++;
+#if C09_MODE == 1
+		VP_ASSERT(!e_deleted, "C09: the event's callback started after event_del had returned in the other thread");
+#endif
 #if C09_MODE == 2
 		if (!op_done && mode == 2) {
 			op_done = 1;
